@@ -68,6 +68,48 @@ pub struct Trace {
     pub run: u64,
     pub config: Value,
     pub steps: Vec<Step>,
+    /// listed known findings the run walks past instead of stopping at (so that they do not hide what lies
+    /// behind them); part of the trace, so that replay stays a function of the file and the code alone
+    #[serde(default, skip_serializing_if = "Vec::is_empty")]
+    pub tolerate: Vec<Tolerated>,
+}
+
+#[derive(Clone, Debug, Serialize, Deserialize, PartialEq)]
+pub struct Tolerated {
+    pub property: String,
+    pub class: String,
+    #[serde(default)]
+    pub facts: Value,
+}
+
+impl Tolerated {
+    pub fn matches(&self, v: &Violation) -> bool {
+        self.property == v.property
+            && self.class == v.class
+            && match (&self.facts, &v.facts) {
+                (Value::Object(want), Value::Object(have)) => want.iter().all(|(kk, vv)| have.get(kk) == Some(vv)),
+                (Value::Null, _) => true,
+                (Value::Object(want), _) => want.is_empty(),
+                _ => false,
+            }
+    }
+}
+
+/// move the violations of this step into `seen` (once per class + facts) if every one of them is tolerated;
+/// returns false if the run has to stop here
+pub fn walk_past(tolerate: &[Tolerated], viols: &mut Vec<Violation>, seen: &mut Vec<Violation>) -> bool {
+    if viols.is_empty() {
+        return true;
+    }
+    if tolerate.is_empty() || !viols.iter().all(|v| tolerate.iter().any(|t| t.matches(v))) {
+        return false;
+    }
+    for v in viols.drain(..) {
+        if !seen.iter().any(|k| k.class == v.class && k.facts == v.facts) {
+            seen.push(v);
+        }
+    }
+    true
 }
 
 #[derive(Clone, Debug, Serialize, Deserialize, PartialEq)]
